@@ -22,7 +22,7 @@ ExemptRO(m) == {f.p : f \in {g \in CanonFlat(m) : g.opcfg}}
 ProjM(f, m) == [p |-> f.p, kind |-> IF "struct" \in Focus THEN f.kind ELSE "",
             ns |-> IF "ns" \in Focus THEN f.ns ELSE "",
             ro |-> IF "ro" \in Focus /\ f.p \notin ExemptRO(m) THEN f.ro ELSE FALSE,
-            attrs |-> IF "attrs" \in Focus /\ ~f.implicit THEN <<f.cfg, f.mand, f.dflt, f.la, f.units, f.type, f.iff, f.dv>> ELSE <<>>]
+            attrs |-> IF "attrs" \in Focus /\ ~f.implicit THEN <<f.cfg, f.mand, f.dflt, f.la, f.units, f.type, f.iff, f.dv, f.idb>> ELSE <<>>]
 ExpectedErr == BuildErr \/ CanonFinal.err
 \* C17: a lookup finds exactly the node the path names: found (and that very node) when the specification has a
 \* node at that path, nothing when a step names no child
